@@ -157,7 +157,7 @@ func checkHeal(c healCase) (inf healInfo, v *verdict) {
 			h.down[d] = true
 		}
 	}
-	px, err := sim.StartProxy(sim.ProxyOpts{Seeds: w.Addrs(ms), ConnectTimeout: connectTimeout})
+	px, err := sim.StartProxy(sim.ProxyOpts{Seeds: w.AllAddrs(), ConnectTimeout: connectTimeout})
 	if err != nil {
 		return inf, &verdict{"proxy-start", err.Error()}
 	}
